@@ -149,6 +149,43 @@ def check(c):
                                               c.idx.stmt_of(p))
             c.ob('C20.restart-poll', c.key(p, rs)[:100] + ' before the main '
                  'loop', ok, c.where(p, rs), '')
+    # ---- poll output order: a job's messages (custom outputs) are reported
+    # before its summary (final status); the scheduler handles the lines in
+    # order, and a final status can remove the task before a later output
+    # line could spawn its children
+    jp = c.func('job_runner_mgr', 'JobRunnerManager.jobs_poll')
+    writes = [n for n in c.find(jp, 'sys.stdout.write(_)')]
+    msg = [n for n in writes if 'OUT_PREFIX_MESSAGE' in norm(n)]
+    summ = [n for n in writes if 'OUT_PREFIX_SUMMARY' in norm(n)]
+    c.exactly('C20.poll-order', 'message line write in jobs_poll',
+              len(msg), 1)
+    c.exactly('C20.poll-order', 'summary line write in jobs_poll',
+              len(summ), 1)
+    for m in msg:
+        for s in summ:
+            ms, ss = c.idx.stmt_of(m), c.idx.stmt_of(s)
+            # same per-job loop; summary after the message loop
+            lp = c.idx.parent[id(ss)]
+            inner = c.idx.parent[id(ms)]
+            ok = isinstance(lp, ast.For) and norm(lp.iter) == 'ctx_list' \
+                and isinstance(inner, ast.For) and c.idx.parent[
+                    id(inner)] is lp and norm(inner.iter) == 'ctx.messages'
+            if ok:
+                i_msg = [k for k, x in enumerate(lp.body) if x is inner][0]
+                i_sum = [k for k, x in enumerate(lp.body) if x is ss][0]
+                ok = i_msg < i_sum
+            c.ob('C20.poll-order', f'{jp.fq} :: per job, message lines are '
+                 'written before the summary line', ok, c.where(s, jp),
+                 'messages first' if ok else 'summary (final status) is '
+                 'reported before the job\'s messages: after a restart poll '
+                 'the task can be completed and removed before its custom '
+                 'outputs spawn their children')
+    mc = c.func('task_job_mgr', 'TaskJobManager._manip_task_jobs_callback')
+    lines = [n for n in c.idx.walk(mc.node) if isinstance(n, ast.For)
+             and norm(n.iter) == 'out.splitlines(True)']
+    c.ob('C20.poll-order', f'{mc.fq} :: handles output lines in order',
+         len(lines) == 1, c.where(mc.node, mc), '')
+
     # ---- DB-backed respawn decision
     st = c.func(TP, 'TaskPool.spawn_task')
     c.floor('C20.history', 'spawn_task consults _get_task_history', len(
